@@ -387,7 +387,9 @@ def make_distinct(*bounded: Bounded):
     tree: IntervalTree = IntervalTree()
     for b in bounded:
         if not b.bounds().finite:
-            b.tighten_bounds()
+            # one call need not make both ends finite
+            while not b.bounds().finite and b.tighten_bounds():
+                pass
             if not b.bounds().finite:
                 raise ValueError(f"Could not tighten {b!r} to a finite bound")
         tree.add(Interval(b.bounds().lower_bound, b.bounds().upper_bound + 1, b))
